@@ -363,6 +363,8 @@ def entries():
 
 
 def run(res, tier, seed, search):
+    from harness import c07_model
+    c07_model.run_model(res, np.random.default_rng([seed, 709]), 40 if tier == "quick" else 600)   # Lean model (Float) vs real kernels / ufuncs
     quick = tier == "quick"
     n = 4 if quick else 40
     if search:
